@@ -67,7 +67,9 @@ def gen(ctx, k, stepper_only=False):
     grp('ct:edwards', 'ed.mulbaseclamped', ['ct.ed.mulbaseclamped %s' % b.hex() for b in B32])
     for radix in (16, 32, 64, 128, 256):
         grp('ct:edwards', 'ed.table%d' % radix, ['ct.ed.table #%d %s %s' % (radix, P3.tok(), cs(s)) for s in S], has_tables)
-    for n in (1, 2, 3, 8):
+    # 190 / 200 terms: the sizes at which the variable-time multiscalar code switches to the bucket method; the
+    # constant-time one must not
+    for n in (1, 2, 3, 8, 190, 200):
         pts_ = lst([pub[j % len(pub)].tok() for j in range(n)])
         grp('ct:edwards', 'ed.msm%d' % n, ['ct.ed.msm %s %s' % (lst([cs((s + 7 * j) % L) for j in range(n)]), pts_) for s in S])
     grp('ct:edwards', 'ed.pointops', ['ct.ed.pointops %s %s' % (vals.Pt(s + 1, i % 8).tok(), vals.Pt(2 * s + 3, (i * 3) % 8).tok())
@@ -81,6 +83,8 @@ def gen(ctx, k, stepper_only=False):
     grp('ct:ristretto', 'rs.pointops', ['ct.rs.pointops %s %s' % (rp(vals.Pt(s + 1, 0)), rp(vals.Pt(3 * s + 2, 2))) for s in S])
     grp('ct:ristretto', 'rs.mul', ['ct.rs.mul %s %s' % (rp(P1), cs(s)) for s in S])
     grp('ct:ristretto', 'rs.msm', ['ct.rs.msm %s %s' % (lst([cs(s), cs((s * 5 + 1) % L)]), lst([rp(P1), rp(P2)])) for s in S])
+    grp('ct:ristretto', 'rs.msm190', ['ct.rs.msm %s %s' % (lst([cs((s * 5 + j) % L) for j in range(190)]), lst([rp(pub[j % len(pub)]) for j in range(190)]))
+                                      for s in S])
     for n in (1, 2, 5):
         grp('ct:ristretto', 'rs.dblbatch%d' % n, ['ct.rs.dblbatch %s' % lst([rp(vals.Pt(s + j + 1, 0)) for j in range(n)]) for s in S])
     msg = vals.rb(rng, 37).hex()
@@ -191,7 +195,7 @@ def task_memcheck(prop, seed, size, cfgbins, shard=0, nshards=1):
 
 STEP_OPS = ['sc.arith', 'sc.invert', 'sc.batchinv2', 'ed.mul', 'ed.mulbase', 'ed.mulclamped', 'ed.msm3', 'ed.pointops', 'mt.mul',
             'x.x25519', 'rs.uniform', 'rs.mul', 'rs.dblbatch2', 'sig.sign', 'sig.keygen', 'ed.table32', 'ed.mul_secretpoint',
-            'rs.msm', 'x.dh1']
+            'rs.msm', 'x.dh1', 'ed.msm190']
 
 
 def task_stepper(prop, seed, size, cfgbins, ops=()):
